@@ -570,6 +570,25 @@ static void frames_mode(unsigned long long seed, int tier, unsigned shard, unsig
             }
         }
     }
+    /* corpus: frames for which the in-place margin is tight - incompressible content cut in the smallest blocks
+       (window 1 KiB): the margin is then exactly header + checksum + 3 bytes per block + one block */
+    if (shard == 0) {
+        static const size_t tn[] = { 5000, 30000, 200000, 205824 }; unsigned k;
+        for (k = 0; k < 4; k++) {
+            P p = mkP(1, (int)(k & 1), (k == 2) ? 0 : -1, 10, 0, 0, 0, 0, 0, 0); size_t r; size_t msize = 0; char tag[64];
+            snprintf(g_desc, sizeof g_desc, "frames %llu %d %u %u corpus=%u", seed, tier, shard, nshards, k);
+            gen_input(one, tn[k], K_NOISE, 4242 + k);
+            /* k == 3: a first block that compresses only slightly (7-bit symbols), then noise: the first block is a
+               full-size compressed block and almost nothing is gained before it */
+            if (k == 3) { size_t j; for (j = 0; j < 1024; j++) one[j] &= 0x7F; }
+            apply_params(g_cctx, &p);
+            if (k == 1) { r = ZSTD_writeSkippableFrame(multi, 64, "skip", 4, 7); if (ZSTD_isError(r)) exit(2); msize += r; }
+            r = ZSTD_compress2(g_cctx, multi + msize, ZSTD_compressBound(tn[k]), one, tn[k]); if (ZSTD_isError(r)) exit(2);
+            msize += r;
+            snprintf(tag, sizeof tag, "F id=corpus%u nf=%u", k, k == 1 ? 2u : 1u);
+            inspect_line(tag, multi, msize, 1); decode_facts(multi, msize, tn[k], one);
+        }
+    }
     /* hand-made valid frame whose compressed blocks are LARGER than what they regenerate (never emitted by the
        library's compressor): RLE block of 1024 bytes, then k compressed blocks "1 raw literal, 0 sequences" */
     if (shard == 0) {
